@@ -186,6 +186,8 @@ def build(case):
 
 # ---------------------------------------------------------------------------------------------
 _workdir = [None]
+# stages of cli_io.pipeline that state what the MODEL says about the text (the others state the property)
+MODEL_STAGES = ('ascii', 'text', 'literal', 'subprocess-text')
 
 
 def workdir():
@@ -255,7 +257,7 @@ def report(ctx, kind, stage, why, b, extra=None):
     ctx.violation('%s cli %s: %s' % (kind, stage, why), rep, signature=sig)
 
 
-def check_layer(ctx, drv, layers):
+def check_layer(ctx, drv, layers, no_failing_input=False):
     """model vs implementation on the text layer of every distinct character value: literal, json.loads, field bits"""
     uniq = {}
     for it in layers:
@@ -277,7 +279,7 @@ def check_layer(ctx, drv, layers):
             why = 'write_bytes(<text read from JSON>, %d) writes %s, model fieldCode %s' % (it['k'], it['field'], m['field'])
         if why:
             ctx.violation('correspondence cli text-layer: ' + why, {'cli': True, 'layer': it, 'model': m, 'why': why},
-                          signature={'kind': 'correspondence', 'stage': 'cli:text-layer'})
+                          signature={'kind': 'correspondence', 'stage': 'cli:text-layer'}, no_failing_input=no_failing_input)
             return
 
 
@@ -311,7 +313,7 @@ def check_strings(ctx, drv):
         back = json.loads(lit)
         if lit != m['lit'] or m['back'] != s or back != text:
             ctx.violation('correspondence cli json-string: json.dumps(%r) = %s, model %s; read back %r / model %s' % (text, lit, m['lit'], back, m['back']),
-                          {'cli': True, 'string': s, 'model': m}, signature={'kind': 'correspondence', 'stage': 'cli:json-string'})
+                          {'cli': True, 'string': s, 'model': m}, signature={'kind': 'correspondence', 'stage': 'cli:json-string'}, no_failing_input=True)
             return
     agree = refused = 0
     for lit, m in zip(lits, res['lits']):
@@ -329,7 +331,7 @@ def check_strings(ctx, drv):
             continue
         if (None if v is None else [ord(c) for c in v]) != m:
             ctx.violation('correspondence cli json-literal: json.loads(%r) = %r, model %s' % (lit, v, m), {'cli': True, 'literal': lit, 'model': m},
-                          signature={'kind': 'correspondence', 'stage': 'cli:json-literal'})
+                          signature={'kind': 'correspondence', 'stage': 'cli:json-literal'}, no_failing_input=True)
             return
         if v is None:
             refused += 1
@@ -364,6 +366,7 @@ def run_cli(ctx, drv, pool, extra_messages=()):
     layers = []
     octets = set()
     reported = False
+    model_problem = None
     for (b, _), tag, r in zip(jobs, tags, results):
         if 'harness_error' in r:
             raise core.MachineryError('cli pipeline failed: ' + r['harness_error'])
@@ -390,14 +393,22 @@ def run_cli(ctx, drv, pool, extra_messages=()):
             if hx in by_hex and lits != [by_hex[hx]]:
                 r['problems'].append(('flat_json:literal', 'the command line wrote %s for %r, json.dumps(value, **JSON_DUMPS_KWARGS) gives %s' % (
                     lits, bytes.fromhex(hx), by_hex[hx])))
-        if r['problems'] and not reported:
-            stage, why = r['problems'][0]
-            small = shrink_chars(b, stage) if tag.startswith('chars:') else None
-            report(ctx, 'oracle', stage, (small or (b, why))[1], (small or (b, why))[0], extra={'tag': tag})
-            reported = True
+        for stage, why in r['problems']:
+            if stage.split(':')[-1] in MODEL_STAGES:
+                # a statement of the model about the text, not the property: reported after the run, as a violation with a
+                # failing input only when the oracle found one too
+                if model_problem is None:
+                    model_problem = (stage, why, b, tag)
+            elif not reported:
+                small = shrink_chars(b, stage) if tag.startswith('chars:') else None
+                report(ctx, 'oracle', stage, (small or (b, why))[1], (small or (b, why))[0], extra={'tag': tag})
+                reported = True
     ctx.count('cli:octet-values-covered', len(octets))
-    if not quick or True:
-        check_layer(ctx, drv, layers)
+    if model_problem is not None:
+        stage, why, b, tag = model_problem
+        ctx.violation('correspondence cli %s: %s' % (stage, why), {'cli': True, 'message_hex': b.hex(), 'why': why, 'stage': stage, 'tag': tag},
+                      signature={'kind': 'correspondence', 'stage': 'cli:' + stage.split(':')[-1]}, no_failing_input=not reported)
+    check_layer(ctx, drv, layers, no_failing_input=not reported)
     check_strings(ctx, drv)
     # -- the other sub-commands
     groups = []
@@ -472,8 +483,11 @@ def replay_cli(ctx, rep):
         print('replay: cli pipeline problems: %s' % (r.get('problems') or 'none'))
         r2 = pipeline_worker((b, {}))
         check_layer(ctx, drv, r2.get('layer', []))
-        for stage, why in r.get('problems', [])[:1]:
+        for stage, why in [p for p in r.get('problems', []) if p[0].split(':')[-1] not in MODEL_STAGES][:1]:
             report(ctx, 'oracle', stage, why, b)
+        for stage, why in [p for p in r.get('problems', []) if p[0].split(':')[-1] in MODEL_STAGES][:1]:
+            ctx.violation('correspondence cli %s: %s' % (stage, why), rep, signature={'kind': 'correspondence', 'stage': 'cli:' + stage.split(':')[-1]},
+                          no_failing_input=True)
     elif rep.get('glue'):
         opts = dict(rep.get('opts') or {})
         r = glue_worker(([bytes.fromhex(h) for h in rep['glue']], opts))
